@@ -187,7 +187,13 @@ struct flat_set {
     }
 
     template <typename InputIt>
-    constexpr auto insert(etl::sorted_unique_t /*tag*/, InputIt first, InputIt last) -> void;
+    constexpr auto insert(etl::sorted_unique_t /*tag*/, InputIt first, InputIt last) -> void
+    {
+        while (first != last) {
+            insert(*first);
+            ++first;
+        }
+    }
 
     constexpr auto extract() && -> container_type
     {
